@@ -242,27 +242,60 @@ func checkC08(c *Ctx) {
 				return false
 			}
 			// an edge on which the stored list was just tested non-nil discharges the path as well
-			nonNilEdge := map[*ssa.BasicBlock]int{}
-			eachInstr(fn, func(_ *ssa.BasicBlock, _ int, x ssa.Instruction) {
-				bo, ok := x.(*ssa.BinOp)
-				if !ok || (bo.Op != token.EQL && bo.Op != token.NEQ) || !isNilConst(bo.Y) {
-					return
-				}
-				f, _ := loadedField(bo.X)
-				if f == nil || f.Name() != hn.field {
-					return
-				}
-				for _, r := range *bo.Referrers() {
-					if iff, ok := r.(*ssa.If); ok {
-						if bo.Op == token.EQL {
-							nonNilEdge[iff.Block()] = 1
-						} else {
-							nonNilEdge[iff.Block()] = 0
+			nonNilEdgesOf := func(f0 *ssa.Function) map[*ssa.BasicBlock]int {
+				m := map[*ssa.BasicBlock]int{}
+				eachInstr(f0, func(_ *ssa.BasicBlock, _ int, x ssa.Instruction) {
+					bo, ok := x.(*ssa.BinOp)
+					if !ok || (bo.Op != token.EQL && bo.Op != token.NEQ) || !isNilConst(bo.Y) {
+						return
+					}
+					f, _ := loadedField(bo.X)
+					if f == nil || f.Name() != hn.field {
+						return
+					}
+					for _, r := range *bo.Referrers() {
+						if iff, ok := r.(*ssa.If); ok {
+							if bo.Op == token.EQL {
+								m[iff.Block()] = 1
+							} else {
+								m[iff.Block()] = 0
+							}
 						}
 					}
+				})
+				return m
+			}
+			// a helper that is handed the service and leaves its list non-nil on every path does the same
+			var helperLeaves func(x ssa.Instruction, depth int) bool
+			helperLeaves = func(x ssa.Instruction, depth int) bool {
+				call, ok := x.(*ssa.Call)
+				if !ok || depth > 2 {
+					return false
 				}
-			})
-			path := findPath(entryPos(fn), pathQuery{target: func(x ssa.Instruction) bool { return x == ssa.Instruction(addCall) }, avoid: makesNonNil,
+				g := calleeFn(call.Common())
+				if g == nil || !isModFn(g) || g.Blocks == nil {
+					return false
+				}
+				takesSvc := false
+				for _, a := range call.Call.Args {
+					if nt := namedOf(deref(a.Type())); nt != nil && strings.HasSuffix(nt.Obj().Name(), "serviceWrapper") {
+						takesSvc = true
+					}
+				}
+				if !takesSvc {
+					return false
+				}
+				edges := nonNilEdgesOf(g)
+				return findPath(entryPos(g), pathQuery{target: isReturn, avoid: func(y ssa.Instruction) bool { return makesNonNil(y) || helperLeaves(y, depth+1) },
+					edge: func(b *ssa.BasicBlock, k int) bool {
+						if e, ok := edges[b]; ok && e == k {
+							return false
+						}
+						return true
+					}}) == nil
+			}
+			nonNilEdge := nonNilEdgesOf(fn)
+			path := findPath(entryPos(fn), pathQuery{target: func(x ssa.Instruction) bool { return x == ssa.Instruction(addCall) }, avoid: func(y ssa.Instruction) bool { return makesNonNil(y) || helperLeaves(y, 0) },
 				edge: func(b *ssa.BasicBlock, k int) bool {
 					if e, ok := nonNilEdge[b]; ok && e == k {
 						return false // known non-nil from here on (no store assigns nil)
@@ -333,6 +366,32 @@ func checkC08(c *Ctx) {
 			return
 		}
 		storeOrder := ""
+		if ha == hr {
+			// both lists are handed to one helper: the order of its two loops
+			if call, ok := ha.(*ssa.Call); ok {
+				g := calleeFn(call.Common())
+				var la, lr ssa.Instruction
+				for i, a := range call.Call.Args {
+					if i >= len(g.Params) {
+						continue
+					}
+					for _, h := range loopHeaders(g) {
+						ls, _ := findCountedLoop(h)
+						if ls != nil && isLenOf(ls.bound, g.Params[i]) {
+							if a == ssa.Value(addedP) {
+								la = h.Instrs[0]
+							}
+							if a == ssa.Value(removedP) {
+								lr = h.Instrs[0]
+							}
+						}
+					}
+				}
+				if la != nil && lr != nil {
+					ha, hr = la, lr
+				}
+			}
+		}
 		switch {
 		case instrDominates(hr, ha):
 			storeOrder = "remove-then-add"
@@ -821,6 +880,12 @@ func checkEventsCarryEndpoints(c *Ctx, rule string, evtCh *types.Var) {
 							}
 						}
 					}
+				case *ssa.Return: // a constructor hands the event to its caller
+					for _, r := range y.Results {
+						if derives(r, func(v ssa.Value) bool { return v == ssa.Value(al) }) {
+							return true
+						}
+					}
 				}
 				return false
 			}
@@ -843,6 +908,27 @@ func checkEventsCarryEndpoints(c *Ctx, rule string, evtCh *types.Var) {
 				f, base := fieldAddr(s.Addr)
 				return f == epF && base == ssa.Value(al) && !isNilConst(s.Val)
 			}
+			// a constructor that stores its parameter: no caller passes nil for it
+			eachInstr(fn, func(_ *ssa.BasicBlock, _ int, x ssa.Instruction) {
+				st, ok := x.(*ssa.Store)
+				if !ok || !isStore(x) {
+					return
+				}
+				prm, ok := st.Val.(*ssa.Parameter)
+				if !ok {
+					return
+				}
+				idx := paramIndex(fn, prm)
+				for _, ed := range p.callersOf(fn) {
+					if p.isTestFn(ed.Caller.Func) {
+						continue
+					}
+					args := ed.Site.Common().Args
+					if idx >= 0 && idx < len(args) && isNilConst(args[idx]) {
+						c.Fail(rule, site+" (caller "+fnKey(ed.Caller.Func)+")", ed.Site.Pos(), "the event constructor is called with a nil endpoint list")
+					}
+				}
+			})
 			path := findPath(posOf(in), pathQuery{target: isEmit, avoid: isStore})
 			c.Check(path == nil, rule, site, al.Pos(), "the Endpoints field is set on every path from the construction to the emission", "an event that may have to create the processor is emitted without the endpoint list on some path ("+p.pathString(path)+"): when the controller has no processor for the service (an earlier creation failed for a reason the store cannot see) it builds one with no hosts, while the store holds the endpoints and will not announce them again")
 		})
